@@ -31,7 +31,7 @@ Definition sw_alloc (cp : Z) (bas : list ss_balloc) (used : Z) : ss_alloc :=
   {| al_id := 1; al_owner := 100; al_start := 1000; al_exp := 4600; al_size := 1073741824; al_data := 1; al_parity := 1;
      al_wpool := 100000000000; al_mtc := cp; al_mb := 0; al_mtv := 0; al_tpe := false; al_ent := false;
      al_used := used; al_tot := 0; al_open := 0; al_succ := 0; al_fail := 0;
-     al_rr := (0, 1000000000000); al_wr := (0, 1000000000000); al_cp := Some cp; al_bas := bas; al_ocs := []; al_chnode := false |}.
+     al_rr := (0, 1000000000000); al_wr := (0, 1000000000000); al_cp := Some cp; al_bas := bas; al_ocs := []; al_chnode := false; al_tu := 3600000000000 |}.
 
 Definition sw_state (a : ss_alloc) (b0 b1 b2 : ss_blobber) : ss_state :=
   {| st_allocs := [a]; st_blobbers := [b0; b1; b2]; st_validators := []; st_rpools := [];
